@@ -13,7 +13,7 @@ EXTENDS Integers, Sequences, TLC, Json
 CONSTANTS MaxLen,      \* tokens after the head
           Wide         \* TRUE: the full alphabet; FALSE: the select-list / clause tokens only
 Heads == << "select", "select * where", "select key,", "delete where", "put", "remove", "select key as k, count(1) where key = 'a' group by", "select * where key = 'a' order by" >>
-Core == << "*", "key", "value", ",", "as", "x", "where", "(", ")", "=", "'a'", "1", "&", "!", "limit", "f(", "`q`" >>
+Core == << "*", "key", "value", ",", "as", "x", "where", "(", ")", "=", "'a'", "1", "&", "!", "limit", "f(", "`q`", "'a'b" >>
 More == << "in", "between", "and", "+", "[", "]", "order by", "group by", "desc", "`Q r`", "1.5", "true", "-", "^=" >>
 Alphabet == IF Wide THEN Core \o More ELSE Core
 VARIABLE seq
